@@ -201,6 +201,10 @@ def c06(res):
                 "EVERY reachable state of the real ActorModel: recorded enabled actions / successors / ignored actions = "
                 "Enabled / Apply / IsIgnored of ActorSystem.tla. non-trivial = systems with >=1 judged state having enabled actions")
     run_family(res, "C06", systems, STATE_FIELDS["C06"], SYS_FIELDS["C06"], real_counts=False)
+    if res.tier == "thorough":
+        # protocol-scale oracle: the actor-model semantics applied to a real protocol reproduces TLC's state graph size
+        import fam_graph
+        fam_graph.example_paxos(res, clients=(2, 3))
     res.assumptions += ["handler tables are total functions of (state, event); behaviours of arbitrary Rust handlers are "
                         "represented by tables over 3 states / 3 messages / 2 timers / 3 random values",
                         "states are identified by their canonical projection, not by the model's own Hash/Eq"]
